@@ -24,6 +24,7 @@ let rec cval_of = function
   | S.L [S.A "b"; b] -> QBool (S.int b <> 0)
   | S.L [S.A "y"; k] -> QSym (n k)
   | S.L (S.A "l" :: l) -> QList (List.map cval_of l)
+  | S.L (S.A "o" :: kvs) -> QObj (List.map (function S.L [k; v] -> (n k, cval_of v) | _ -> failwith "schema: object constant") kvs)
   | x -> failwith ("schema: bad value " ^ S.to_string x)
 
 let dus_of = function
@@ -73,11 +74,12 @@ let item_of = function
 let i x = S.of_int (int_of_nat x)
 let sdesc d = S.A ("x" ^ String.concat "" (List.map (fun b -> Printf.sprintf "%02x" (int_of_nat b)) d))
 let rec s_tref = function TN k -> S.L [S.A "n"; i k] | TL t -> S.L [S.A "l"; s_tref t] | TNN t -> S.L [S.A "nn"; s_tref t]
+let sort_s l = List.sort (fun a b -> compare (S.to_string a) (S.to_string b)) l
 let rec s_cval = function
   | QNull -> S.A "null" | QInt z -> S.L [S.A "i"; S.of_int (int_of_z z)] | QStr k -> S.L [S.A "s"; i k]
   | QBool b -> S.L [S.A "b"; S.of_int (if b then 1 else 0)] | QSym k -> S.L [S.A "y"; i k]
   | QList l -> S.L (S.A "l" :: List.map s_cval l)
-let sort_s l = List.sort (fun a b -> compare (S.to_string a) (S.to_string b)) l
+  | QObj kvs -> S.L (S.A "o" :: sort_s (List.map (fun (k, v) -> S.L [i k; s_cval v]) kvs))
 let s_du d = S.L (S.A "du" :: i d.du_name :: sort_s (List.map (fun (a, v) -> S.L [i a; s_cval v]) d.du_args))
 let s_dus l = S.L (sort_s (List.map s_du l))
 let s_arg a =
@@ -240,7 +242,9 @@ let run17 (input : S.t) (observed : S.t) : S.t * string =
   else begin
     let st = match List.rev results with (_, st) :: _ -> st | [] -> [] in
     let sch = s_jt (Model.schema_answer st incl) in
-    let lks = List.map (fun nm -> s_jt (Model.type_answer st incl nm)) lookups in
+    (* names from 5000 on are names of directives: no type has such a name (the rendering keeps the two
+       name spaces apart), so the answer is that of an unknown name *)
+    let lks = List.map (fun nm -> s_jt (Model.type_answer st incl (if int_of_nat nm >= 5000 then nat_of_int 999 else nm))) lookups in
     let expected = S.L [S.A "answer"; sch; S.L [S.A "errors"; S.of_int 0]; S.L (S.A "lookups" :: lks)] in
     let verdict =
       match observed with
